@@ -61,7 +61,7 @@ theorem hidden_never_delegated (hs : List Path) (c c' : Call) (h : translate hs 
           · exact key _ _ h2
   · -- symlink
     rename_i o n
-    cases h1 : hguard hs (if isAbs o = true then o else join (dir n) o) .hiddenPerm with
+    cases h1 : hguard hs (if isAbs o = true then o else join (dir (clean n)) o) .hiddenPerm with
     | error e => rw [h1] at h; cases h
     | ok u1 =>
       rw [h1] at h
@@ -107,9 +107,9 @@ theorem rename_refused (hs : List Path) (o n : Path) :
 /-- T06.3 `Symlink`: a link whose lexical effective target is hidden, or that is located at a
 hidden path, cannot be created. -/
 theorem symlink_refused (hs : List Path) (o n : Path) :
-    (isHidden (if isAbs o then o else join (dir n) o) hs = .ok true →
+    (isHidden (if isAbs o then o else join (dir (clean n)) o) hs = .ok true →
       translate hs (.symlink o n) = .error .hiddenPerm) ∧
-    (isHidden (if isAbs o then o else join (dir n) o) hs = .ok false → isHidden n hs = .ok true →
+    (isHidden (if isAbs o then o else join (dir (clean n)) o) hs = .ok false → isHidden n hs = .ok true →
       translate hs (.symlink o n) = .error .hiddenPerm) := by
   constructor
   · intro h
@@ -165,7 +165,7 @@ theorem refusal_classes (hs : List Path) (c : Call) (e : Err) (h : translate hs 
           · cases h; simp
           · cases h
   · rename_i o n
-    cases h1 : hguard hs (if isAbs o = true then o else join (dir n) o) .hiddenPerm with
+    cases h1 : hguard hs (if isAbs o = true then o else join (dir (clean n)) o) .hiddenPerm with
     | error e' => rw [h1] at h; cases h; exact key _ _ _ h1 (Or.inr rfl)
     | ok u =>
       rw [h1] at h
